@@ -586,13 +586,16 @@ Definition tight_l (F : list eset) (t : ptree) : bool :=
 
 Definition im_tight_b (F : list eset) (t : ptree) : bool := pall (tight_l F) t.
 
-(** no observed set straddles the universe of an OR node that [process_missing_and_gates] rebuilds *)
+(** for every OR node over leaves (the nodes [process_missing_and_gates] may rebuild): no observed set
+    straddles its universe [U] (meets it without being inside it) - or no observed set lies inside
+    [U] at all, in which case [get_weighted_cover] is called on the empty set and returns None *)
 Definition straddle_free_l (F : list eset) (t : ptree) : bool :=
   match t with
   | PNode POr cs =>
       implb (forallb is_pleafish cs)
             (let U := flat_map plabel cs in
-             forallb (fun s => is_empty (inter s U) || subsetb s U) F)
+             forallb (fun s => is_empty (inter s U) || subsetb s U) F
+             || forallb (fun s => negb (subsetb s U)) F)
   | _ => true
   end.
 
